@@ -324,6 +324,26 @@ R.contract(
     replayable=False,
 )
 
+
+# ------------------------------------------------------------------------------------------------- Override.for_operation: each configured override goes to ITS OWN location
+_fp = R.contracts[OV + "_for_parameters"]
+_fp.returns = lambda it, env: ("applicable", env["overridden"], env["defined"])
+_fp.call_ensures = {}
+_fp.requires_are_representation_invariant = True
+R.contract(
+    OV + "Override.for_operation",
+    prop="C14",
+    args={"self": Obj(OV + "Override", query=Opq("QueryOverrides"), headers=Opq("HeaderOverrides"), cookies=Opq("CookieOverrides"), path_parameters=Opq("PathOverrides")),
+          "operation": Obj("spec:OverriddenOp", query=Opq("QueryParams"), headers=Opq("HeaderParams"), cookies=Opq("CookieParams"), path_parameters=Opq("PathParams"))},
+    raises=[],
+    ensures={
+        # `--set-query` values are matched against the operation's QUERY parameters only, `--set-header` against its headers ... never across locations
+        "each_location_gets_its_own_overrides_for_its_own_parameters": "result == {'query': ('applicable', self.query, operation.query), 'headers': ('applicable', self.headers, operation.headers), "
+                                                                        "'cookies': ('applicable', self.cookies, operation.cookies), 'path_parameters': ('applicable', self.path_parameters, operation.path_parameters)}",
+    },
+    replayable=False,
+)
+
 LEVEL_TEXT = ("Deductive: header precedence, override restriction (loop invariant over any number of parameters) and the token cache's double-checked lock "
               "under an explicit rely condition (cache havoced at lock acquisition) are postconditions on the real functions, discharged by z3.")
 LEVEL_NOTE = "Trusted: CaseInsensitiveDict, threading.Lock as synchronisation point (rely), frozen timer, pyvc semantics (E9). Free interleavings are not decided."
